@@ -427,6 +427,8 @@ func (v *Verifier) applyContractS(st *State, con *Contract, cpkg *types.Package,
 		v.note("contract without modifies clause (heap havocked): " + what)
 		v.havocAll(st, "nomod")
 	} else {
+		// all locations are evaluated in the pre-state, then forgotten
+		var all []modLoc
 		for _, m := range con.Modifies {
 			locs, err := env.evalLocs(m)
 			if err != nil {
@@ -434,9 +436,10 @@ func (v *Verifier) applyContractS(st *State, con *Contract, cpkg *types.Package,
 				v.havocAll(st, "moderr")
 				continue
 			}
-			for _, l := range locs {
-				v.havocLoc(st, l, in)
-			}
+			all = append(all, locs...)
+		}
+		for _, l := range all {
+			v.havocLoc(st, l, in)
 		}
 	}
 	// results
@@ -575,9 +578,9 @@ func (v *Verifier) havocLoc(st *State, l modLoc, in ssa.Instruction) {
 		if h == nil {
 			h = v.heapFor(st, l.sort)
 		}
-		if l.guard == nil {
-			v.frameCheckLoc(st, l.key, l.addr, in)
-		}
+		v.frameGuard = l.guard
+		v.frameCheckLoc(st, l.key, l.addr, in)
+		v.frameGuard = nil
 		f := v.Y.fresh(v.D, "hv", l.sort)
 		if l.typ != nil {
 			v.addTypeFacts(st, f, l.typ)
@@ -591,6 +594,7 @@ func (v *Verifier) havocLoc(st *State, l modLoc, in ssa.Instruction) {
 		h.write(l.addr, f)
 		v.recordWrite(st, l.key, l.addr)
 	case "anyfield":
+		v.frameCheckRegion(st, l, in)
 		h := st.heap[l.key]
 		if h == nil {
 			h = v.heapFor(st, l.sort)
@@ -621,6 +625,7 @@ func (v *Verifier) havocLoc(st *State, l modLoc, in ssa.Instruction) {
 			st.colW = append(st.colW, wrec{l.key, mk("Ptr", "zz_fld", v.Y.fresh(v.D, "anyobj", "Ptr"), l.addr)})
 		}
 	case "under", "userdata":
+		v.frameCheckRegion(st, l, in)
 		for _, k := range sortedKeys(st.heap) {
 			v.applyGlobalHavoc(st, st.heap[k], l)
 		}
@@ -629,6 +634,7 @@ func (v *Verifier) havocLoc(st *State, l modLoc, in ssa.Instruction) {
 			st.colW = append(st.colW, wrec{key: "GLOBAL:" + l.kind, addr: l.base})
 		}
 	case "anyelems":
+		v.frameCheckRegion(st, l, in)
 		h := st.heap[l.key]
 		if h == nil {
 			h = v.heapFor(st, l.sort)
@@ -669,7 +675,7 @@ func (v *Verifier) havocLoc(st *State, l modLoc, in ssa.Instruction) {
 				h = v.heapFor(st, l.sort)
 			}
 		}
-		v.frameCheckLoc(st, l.key, mk("Ptr", "zz_anyaddr"), in)
+		v.frameCheckRegion(st, l, in)
 		h.regionHavoc(v.Y.fresh(v.D, "hk", h.arraySort()), predAll)
 		if v.col != nil {
 			st.colW = append(st.colW, wrec{key: "ALLKEY:" + l.key})
@@ -737,6 +743,49 @@ func (v *Verifier) frameViolation(st *State, in ssa.Instruction, why string) {
 		return
 	}
 	v.emit(st, "frame", "write@"+posOf(in.Parent(), in.Pos()), []string{"C08", "C19"}, tFalse, why, posOf(in.Parent(), in.Pos()))
+}
+
+// frameCheckRegion: a callee's region-shaped modifies item must be covered by an item of the same shape
+// (or a larger one) in the verified function's own modifies clause.
+func (v *Verifier) frameCheckRegion(st *State, l modLoc, in ssa.Instruction) {
+	if !v.frameOn || v.col != nil || v.curCon == nil || !v.curCon.HasModifies || in == nil {
+		return
+	}
+	for _, m := range v.modset {
+		if m.kind == "heap" {
+			return
+		}
+		if m.kind == "key" && m.key == l.key {
+			return
+		}
+		if m.kind != l.kind {
+			continue
+		}
+		switch l.kind {
+		case "anyelems":
+			if m.key == l.key {
+				return
+			}
+		case "anyfield":
+			if m.key == l.key && termEq(m.addr, l.addr) {
+				return
+			}
+		case "userdata":
+			return
+		case "under":
+			if termEq(m.base, l.base) {
+				return
+			}
+		case "key":
+			if m.key == l.key {
+				return
+			}
+		}
+		if m.kind == "userdata" && l.kind == "under" {
+			return
+		}
+	}
+	v.emit(st, "frame", "region:"+l.kind+":"+l.key+"@"+fnKey(originOf(in.Parent())), []string{"C08", "C19"}, tFalse, "callee modifies region "+l.kind+" "+l.key+" which is not in this function's modifies clause", posOf(in.Parent(), in.Pos()))
 }
 
 func (v *Verifier) frameCheck(st *State, addr *Term, t types.Type, in ssa.Instruction) {
@@ -821,9 +870,13 @@ func (v *Verifier) frameCheckLoc(st *State, key string, addr *Term, in ssa.Instr
 			}
 		}
 	}
-	alts = append(alts, mk("Bool", "zz_isnew", root))
+	alts = append(alts, tFresh(addr))
 	where := posOf(in.Parent(), in.Pos())
-	v.emit(st, "frame", "write:"+key+"@"+fnKey(originOf(in.Parent())), []string{"C08", "C19"}, tOr(alts...), "store to "+addr.String()+" must be inside modifies", where)
+	goal := tOr(alts...)
+	if v.frameGuard != nil {
+		goal = tImp(v.frameGuard, goal)
+	}
+	v.emit(st, "frame", "write:"+key+"@"+fnKey(originOf(in.Parent())), []string{"C08", "C19"}, goal, "store to "+trimModel(addr.String(), 200)+" must be inside modifies", where)
 }
 
 // ---- sync.Pool
@@ -1589,6 +1642,12 @@ func (v *Verifier) finishPath(st *State, rs []*Term) {
 	if con == nil {
 		return
 	}
+	if v.returns <= 6 {
+		// vacuity guard: at least one return path of the function must be feasible (checked on the ground part)
+		o := &Obligation{Name: v.curFn + "#vacuity:return", Func: v.curFn, Kind: "vacuity", Label: "return", Goal: tFalse, Expect: "sat", D: v.D, Src: "some return path is feasible (assumed callee postconditions are consistent)", PathID: v.pathN}
+		o.Assume = append([]*Term(nil), st.pc...)
+		v.obls = append(v.obls, o)
+	}
 	env := v.topEnv(st)
 	sig := v.curTop.Signature
 	for i, r := range rs {
@@ -1630,7 +1689,7 @@ func (v *Verifier) finishPath(st *State, rs []*Term) {
 	if con.FreshResult && len(rs) > 0 {
 		g := tTrue
 		if rootOf(rs[0]).Op != "zz_new" {
-			g = mk("Bool", "zz_isnew", rs[0])
+			g = tFresh(rs[0])
 		}
 		v.emit(st, "post", "fresh_result", []string{"C07", "C08"}, g, "result is a freshly acquired object (owned by the caller)", "")
 	}
@@ -1697,7 +1756,7 @@ func (v *Verifier) verifyFunc(fn *ssa.Function, con *Contract, name string) {
 		v.D.declConst(t.Op, t.Sort)
 		v.addTypeFacts(st, t, p.Type())
 		if t.Sort == "Ptr" {
-			st.assume(tNot(mk("Bool", "zz_isnew", t)))
+			st.assume(tNotFresh(t))
 		}
 		f.vals[p] = t
 		args = append(args, t)
@@ -1710,7 +1769,7 @@ func (v *Verifier) verifyFunc(fn *ssa.Function, con *Contract, name string) {
 		t := mk(v.sortOf(fv.Type()), "zz_fv_"+sanitize(fv.Name()))
 		v.D.declConst(t.Op, t.Sort)
 		if t.Sort == "Ptr" {
-			st.assume(tNot(mk("Bool", "zz_isnew", t)))
+			st.assume(tNotFresh(t))
 			st.assume(tNot(tEq(t, tNilP)))
 		}
 		f.vals[fv] = t
